@@ -3,6 +3,7 @@
 export VSIM_EVIDENCE_DIR=${VSIM_EVIDENCE_DIR:-$PWD/th_out/evidence} VSIM_REPLAY_DIR=${VSIM_REPLAY_DIR:-$PWD/th_out/replays}
 for p in ${@:-C20 C17 C16 C04 C03 C18}; do
   out=$(timeout 7000 bin/vsim check $p --tier thorough 2>&1); rc=$?
+  mkdir -p "$PWD/th_out"; echo "$out" | grep -v "^ [0-9 ][0-9]:" | tail -60 > "$PWD/th_out/$p.tail.log"
   echo "THOROUGH $p rc=$rc $(echo "$out" | grep "^$p tier" | cut -c1-200)"
-  echo "$out" | grep -v "^ [0-9 ][0-9]:" | grep "^violation\|^VIOLATION\|HARNESS\|PROBE-ZERO" | cut -c1-500 | head -12
+  echo "$out" | grep -v "^ [0-9 ][0-9]:" | grep "^violation\|^VIOLATION\|HARNESS\|PROBE-ZERO\|Traceback\|Error" | cut -c1-500 | head -12
 done
